@@ -263,7 +263,8 @@ def verify(ops, sut, aux, mask, cache, stats=None):
         for j, req in enumerate(reqs):
             w = {}
             for i, v in req:
-                w[i] = int(v[1]) if isinstance(v, list) else v
+                # the number the library was actually handed (an integral float carries 53 bits)
+                w[i] = (int(float(v[1])) if v[0] == "fl" else int(v[1])) if isinstance(v, list) else v
             if is_select:
                 dp = dict((kv[0], kv[1]) for kv in ax["prios"]["v"][1])
                 try:
